@@ -15,14 +15,14 @@ from vlib.result import Result, rng_for, scratch
 
 PROPERTY = "C12"
 LEVEL = "exploration"
-RULE = ("broadband AP contents (random walk + white noise + slow oscillations, never constant) x NP2.1 and NP2.4 layouts (1..4 shanks, random "
+RULE = ("broadband AP contents (random walk + white noise + slow oscillations, never constant; amplitudes within +-max-int or filling the int16 range) x NP2.1 and NP2.4 layouts (1..4 shanks, random "
         "assignments) x gain settings x lengths not multiple of 12 nor of the window x >= 3 window sizes per recording out of {1200, 1800, 2400, "
         "3600, 60000, random multiples of 12}. Non-trivial: >= 2 windows needed for the smallest window size and length not a multiple of 12; "
         "distinct = distinct (kind, gain, ns, window set, layout)")
 ASSUMPTIONS = ["reference low-pass = the converter's own published design (2nd order Butterworth, Wn=0.2 re. AP Nyquist) applied forward-backward to "
                "the WHOLE trace with scipy.signal.sosfiltfilt", "'away from the two file edges' = 50 LF samples (600 AP samples) at either end",
                "1 LSB tolerance: bound < 1 + 1e-3 to absorb the float32 calibration round trip"]
-REQUIRED = {"lf_files_compared": 12, "reruns_same_object": 3, "window_pairs_compared": 6, "sync_columns_compared": 12, "lf_meta_checked": 12, "reference_compared": 12}
+REQUIRED = {"lf_files_compared": 12, "reruns_same_object": 3, "window_pairs_compared": 6, "sync_columns_compared": 12, "lf_meta_checked": 12, "reference_compared": 12, "int16_wide_contents": 2}
 CASE_TIMEOUT = 200.0
 MAX_PROCS = 12
 
@@ -32,7 +32,7 @@ def gen_cases(seed, tier):
     return [{"cls": "lfp", "seed": seed * 1000 + i, "_w": 5} for i in range(n)]
 
 
-def broadband(rng, ns, maxint):
+def broadband(rng, ns, maxint, wide=False):
     """int16 (ns, 385): random walk + white + a few slow oscillations per channel, amplitude a good fraction of the range"""
     t = np.arange(ns)[:, None]
     walk = np.cumsum(rng.standard_normal((ns, 384)), axis=0)
@@ -41,6 +41,9 @@ def broadband(rng, ns, maxint):
               for f in rng.uniform(2, 900, 4))
     x = walk / (np.std(walk) + 1e-9) * 0.15 + osc * 0.12 + rng.standard_normal((ns, 384)) * 0.05
     amp = min(maxint, 30000) * float(rng.uniform(0.5, 0.9))
+    if wide:
+        # the file format is int16 whatever the converter's nominal max-int: slow components well beyond +-maxint counts, within int16
+        amp = 30000 * float(rng.uniform(0.5, 0.95)) / float(np.max(np.abs(x)))
     raw = np.clip(np.round(x * amp), -32768, 32767).astype(np.int16)
     sync = rng.integers(0, 2 ** 15, (ns, 1)).astype(np.int16)
     return np.ascontiguousarray(np.c_[raw, sync])
@@ -63,12 +66,15 @@ def run_case(case):
     else:
         mode = "np21"
         sites = G.draw_sites(rng, "NP2.1", 384, str(rng.choice(["dense", "random"])))
-    raw = broadband(rng, ns, gain[1])
+    wide = rng.random() < 0.35
+    raw = broadband(rng, ns, gain[1], wide=wide)
     wins = [1200, 1800, 2400, 3600, 60000, 12 * int(rng.integers(49, 300))]
     wsel = [1200] + [int(v) for v in rng.choice(wins[1:], 2, replace=False)]
     compress = rng.random() < 0.25
     cbin_orig = rng.random() < 0.25
-    label0 = f"{kind} gain={gain[0]}/{gain[1]} ns={ns} layout={mode} compress={compress} original={'cbin' if cbin_orig else 'bin'}"
+    label0 = f"{kind} gain={gain[0]}/{gain[1]} ns={ns} layout={mode} compress={compress} original={'cbin' if cbin_orig else 'bin'}" + (f" amplitude up to {int(np.max(np.abs(raw[:, :384])))} counts" if wide else "")
+    if wide:
+        res.count("int16_wide_contents")
     # reference: whole-trace zero-phase low-pass, then every 12th sample, in integer units
     sos = scipy.signal.butter(N=2, Wn=0.2, btype="lowpass", output="sos")
     ref = scipy.signal.sosfiltfilt(sos, raw[:, :384].astype(np.float64), axis=0)[::12]
